@@ -84,15 +84,20 @@ def check_dir(cfg: kaisa.Config, h: list[dict], seed: int) -> list[tuple]:
     issues = []
     d = tempfile.mkdtemp(prefix='verif_gptckpt_')
     try:
-        c = kaisa.Config(**{**cfg.to_json(),
-                            'gpt': {**cfg.gpt, 'ckpt_dir': d}})
-        hh = [x for x in h]
-        out = gptrun.replay(c, hh, seed, simdist.LazyCompletion(seed))
-        for m in out['mismatches'][:3]:
-            issues.append((f'[directory mode] {m["cat"]} after {m["act"]} '
-                           f'(op {m["at"]}): {m["msg"]}',
-                           {'cat': m['cat'], 'mode': 'dir'}))
-        files = sorted(os.listdir(d)) if os.path.isdir(d) else []
+        # the checkpoint directory does not exist yet (first checkpoint of a
+        # run); one schedule lets rank 0 run ahead of the others
+        for k, pol in enumerate((simdist.LazyCompletion(seed),
+                                 simdist.RunToBlock(None, lazy=False))):
+            sub_d = os.path.join(d, f'ckpt{k}')
+            c = kaisa.Config(**{**cfg.to_json(),
+                                'gpt': {**cfg.gpt, 'ckpt_dir': sub_d}})
+            out = gptrun.replay(c, list(h), seed, pol)
+            for m in out['mismatches'][:3]:
+                issues.append((f'[directory mode] {m["cat"]} after {m["act"]} '
+                               f'(op {m["at"]}): {m["msg"]} [{pol.name}]',
+                               {'cat': m['cat'], 'mode': 'dir'}))
+        d_last = sub_d
+        files = sorted(os.listdir(d_last)) if os.path.isdir(d_last) else []
         want = sorted(gptrun.names_of(cfg.gpt).values())
         if any(x['act'] == 'save' and x['arg'] for x in h) and \
                 files != want:
